@@ -805,7 +805,7 @@ namespace foonathan
                     for (std::size_t i = 0u; i != size_; ++i)
                         objects_[i].~T();
 
-                    if (size_)
+                    if (objects_)
                         stack_->unwind(objects_);
                 }
 
@@ -830,6 +830,7 @@ namespace foonathan
                 {
                     auto res = size_;
                     size_    = 0u;
+                    objects_ = nullptr;
                     return res;
                 }
 
